@@ -62,13 +62,32 @@ class report_null:
         pass
 
 
-def find_verify(D):
-    """The verification step shared by decrypt and verify: the RC method both operations call."""
+def find_verify(D, tagcmp=None):
+    """The verification step shared by decrypt and verify: the method of the runner class, reachable from both operations,
+    that itself calls the tag-compare function (innermost such method); without a known compare function, the one method
+    both operations call directly."""
     prog = D.prog
 
     def rc_calls(f):
         return {n['callee'].get('m') for n in walk(f['body'])
                 if n['k'] == 'CXXMemberCallExpr' and n['callee'].get('rec') == D.RCq}
+
+    def reach(f):
+        seen, todo = set(), [f['id']]
+        while todo:
+            x = todo.pop()
+            if x in seen or x not in prog.functions:
+                continue
+            seen.add(x)
+            todo.extend(m for m in rc_calls(prog.functions[x]) if m)
+        return seen
+    if tagcmp is not None:
+        both = reach(D.ops['decrypt']) & reach(D.ops['verify'])
+        direct = [prog.functions[x] for x in both
+                  if any(n['k'] in ('CXXMemberCallExpr', 'CallExpr') and n.get('callee', {}).get('m') == tagcmp['id'] for n in walk(prog.functions[x]['body']))]
+        direct = [f for f in direct if prog.type(f['ret']).get('k') in ('int', 'bool')]
+        if len(direct) == 1:
+            return direct[0]
     common = rc_calls(D.ops['decrypt']) & rc_calls(D.ops['verify'])
     common = [c for c in common if c in prog.functions and prog.type(prog.functions[c]['ret']).get('k') in ('int', 'bool')]
     if len(common) != 1:
@@ -103,9 +122,9 @@ class DriverRules:
     def __init__(self, prog, rec, tier):
         self.prog, self.rec, self.tier = prog, rec, tier
         self.D = Driver(prog, rec)
-        self.verify = find_verify(self.D)
         from .hmac_rules import HmacRules
         self.tagcmp = HmacRules(prog, report_null()).cmp
+        self.verify = find_verify(self.D, self.tagcmp)
         self.D.mac_rec = self.tagcmp.get('rec')
         from .bounds import BoundsListener
         self.bl = BoundsListener(prog, tagger=lambda: getattr(self.D, 'current_op', None))
@@ -208,8 +227,9 @@ class DriverRules:
                 okz = all(bm[i] == ('byte', 0) for i in range(10, 48))
                 rec.ob('R02.b', 'R02.b@%s::tag-area-zero' % fkey(f), okz, where, 'T=%d: bytes [10,48) written as zeros before the body' % T)
                 # IV slots: byte 48+20i+j comes from iv[20i+j] of one array
-                ivobjs = {bm[o][1] for o in range(48, hdr) if bm[o][0] == 'loc'}
-                okiv = len(ivobjs) == 1 and all(bm[48 + k][0] == 'loc' and bm[48 + k][2] == (k,) for k in range(20 * T))
+                # the IV array: its own object, or an array member of some object (base = object + path prefix)
+                ivobjs = {(bm[o][1], tuple(bm[o][2][:-1])) for o in range(48, hdr) if bm[o][0] == 'loc' and bm[o][2]}
+                okiv = len(ivobjs) == 1 and all(bm[48 + k][0] == 'loc' and bm[48 + k][2] and bm[48 + k][2][-1] == k for k in range(20 * T))
                 rec.ob('R02.a', 'R02.a@%s::iv-slots' % fkey(f), okiv, where, 'T=%d: bytes [48,%d) are iv[0..%d) of one array' % (T, hdr, 20 * T))
                 ivobj = next(iter(ivobjs)) if len(ivobjs) == 1 else None
                 # pipeline starts at the end of the header, reads the input from 0
@@ -236,12 +256,12 @@ class DriverRules:
             first = hs[0]
             seedp = show(P(RBUF, (0,)))
             ok = first[1] == seedp and first[2].startswith('$strlen:' + seedp) or first[2].startswith('$strnlen:' + seedp)
-            ok = ok and first[3] == show(P(ivobj, (0,)))
+            ok = ok and first[3] == show(P(ivobj[0], ivobj[1] + (0,)))
             if not ok:
                 det.append('first digest: src=%s len=%s out=%s' % (first[1], first[2], first[3]))
             for i in range(1, T):
                 e = hs[i]
-                good = e[1] == show(P(ivobj, (20 * (i - 1),))) and e[2] == '20' and e[3] == show(P(ivobj, (20 * i,)))
+                good = e[1] == show(P(ivobj[0], ivobj[1] + (20 * (i - 1),))) and e[2] == '20' and e[3] == show(P(ivobj[0], ivobj[1] + (20 * i,)))
                 if not good:
                     det.append('link %d: src=%s len=%s out=%s' % (i, e[1], e[2], e[3]))
                 ok = ok and good
@@ -298,8 +318,8 @@ class DriverRules:
         rec.ob('R02.d', 'R02.d@%s::one-stream-per-thread' % fkey(f), ok, where, 'T=%d: %d cipher streams created' % (T, len(st)))
         for e in st:
             k, args, ivf, keyf = e[1], e[2], e[3], e[4]
-            want = P(ivobj, (20 * k,)) if ivobj is not None else None
-            same_obj = ivf is not None and ivf[0] == 'p' and ivobj is not None and ivf[1] == ivobj
+            want = P(ivobj[0], ivobj[1] + (20 * k,)) if ivobj is not None else None
+            same_obj = ivf is not None and ivf[0] == 'p' and ivobj is not None and ivf[1] == ivobj[0] and tuple(ivf[2][:-1]) == ivobj[1]
             rec.ob('R18.c', 'R18.c@%s::stream-iv-from-stored-ivs' % fkey(f), same_obj, e[5],
                    'T=%d: stream %d starts from %s; the IV array %s is %s' % (
                        T, k, show(ivf) if ivf else '?', 'written to / read from the header' if ivobj else 'unknown',
@@ -314,7 +334,7 @@ class DriverRules:
             else:
                 rec.ob('R18.a', 'R18.a@%s::stream-own-iv' % fkey(f), True, e[5], 'T=%d: stream %d starts from iv+%d' % (T, k, 20 * k))
             # C02's statement documents the current behaviour: every stream is keyed with the first 16 bytes of the FIRST IV
-            rec.ob('R02.i', 'R02.i@%s::streams-start-from-first-iv' % fkey(f), same_obj and ivf == P(ivobj, (0,)), e[5],
+            rec.ob('R02.i', 'R02.i@%s::streams-start-from-first-iv' % fkey(f), same_obj and ivf == P(ivobj[0], ivobj[1] + (0,)), e[5],
                    'T=%d: stream %d starts from %s (documented format: the first IV for every stream)' % (T, k, show(ivf) if ivf else '?'))
             kv = s.comps.get(('streamkey', k))
             okk = keyf == P(KEY, (0,)) or kv == tuple('$key%d' % j for j in range(16))
@@ -385,7 +405,7 @@ class DriverRules:
                                    T, show(pipes[0][1]) if pipes else '-', hdr, show(pipes[0][2]) if pipes else '-'))
                         # IVs are read from [48, 48+20T)
                         rd = [e for e in ev if e[0] == 'R' and e[1] == 'fin' and e[2] == C(48) and e[3] == C(20 * T)]
-                        ivobj = rd[-1][4][1] if rd and rd[-1][4][0] == 'loc' else None
+                        ivobj = (rd[-1][4][1], tuple(rd[-1][4][2][:-1])) if rd and rd[-1][4][0] == 'loc' and rd[-1][4][2] else None
                         rec.ob('R18.c', 'R18.c@%s::ivs-read-from-header' % fkey(f), bool(rd), where, 'T=%d: %d bytes read at 48 into the IV array' % (T, 20 * T))
                         self.stream_rules(s, ev, T, ivobj, f, where, enc=False)
                         self.authenticated(s, ev, T, f, where)
